@@ -61,6 +61,26 @@ Definition spec_violates (r : N) (S : schema) (W : wdoc) : bool :=
   | _ => nonempty (run_rule r S W)
   end.
 
+(* every field of the document has unique argument names.  Only then is the overlap rule
+   judged against L1: with duplicate argument names sameArguments is neither reflexive nor
+   symmetric, the code compares each unordered pair once and never a field with itself,
+   and L1 (all ordered pairs) is not the rule's specification (UniqueArgumentNames rejects
+   such documents; C02_same_arguments_symmetric) *)
+Fixpoint names_nodup (l : list name) : bool :=
+  match l with [] => true | x :: r => negb (nmem x r) && names_nodup r end.
+Fixpoint sel_args_unique (s : selection) : bool :=
+  match s with
+  | SField _ _ _ args _ sub =>
+    names_nodup (map fst args) &&
+    (fix go (l : list selection) : bool := match l with [] => true | x :: r => sel_args_unique x && go r end) sub
+  | SSpread _ _ _ => true
+  | SInline _ _ _ sub =>
+    (fix go (l : list selection) : bool := match l with [] => true | x :: r => sel_args_unique x && go r end) sub
+  end.
+Definition args_unique_b (D : document) : bool :=
+  forallb (fun o => forallb sel_args_unique (o_sel o)) (d_ops D) &&
+  forallb (fun f => forallb sel_args_unique (fr_sel f)) (d_frags D).
+
 Definition check_rule (S : schema) (W : wdoc) (acyc : bool) (r : N) (impl : list N) : N :=
   (* nested ifs, not &&: vm_compute evaluates both arguments of andb *)
   if r =? 13 then
@@ -69,8 +89,9 @@ Definition check_rule (S : schema) (W : wdoc) (acyc : bool) (r : N) (impl : list
       else if negb (subset impl (L1_offending S (erase W) fuel)) then 2
       else if same_set impl (run_rule r S W) then 0 else 1
     else
-      (* cyclic documents are outside the overlap rule's specification (NoFragmentCycles
-         rejects them); the memoised model still has to agree with the implementation *)
+      (* cyclic documents and documents with duplicate argument names are outside the overlap
+         rule's specification (NoFragmentCycles / UniqueArgumentNames reject them); the
+         memoised model still has to agree with the implementation *)
       (if same_set impl (run_rule r S W) then 0 else 1)
   else if negb (Bool.eqb (nonempty impl) (spec_violates r S W)) then 2
   else if same_set impl (run_rule r S W) then 0 else 1.
@@ -84,7 +105,7 @@ Fixpoint worst (l : list N) : N :=
 Definition check (c : c02case) : N :=
   match c with
   | DocCase S0 W impl => let S := S0 in
-    let acyc := acyclic_b (erase W) in
+    let acyc := if acyclic_b (erase W) then args_unique_b (erase W) else false in
     worst (map (fun p =>
       let r := fst p in
       if r =? 24 then
@@ -105,7 +126,7 @@ Fixpoint bad (cs : list (N * c02case)) : list (N * N) :=
 Definition diag (c : c02case) : list (N * N * list N * bool) :=
   match c with
   | DocCase S0 W impl =>
-    let acyc := acyclic_b (erase W) in
+    let acyc := if acyclic_b (erase W) then args_unique_b (erase W) else false in
     flat_map (fun p =>
       let r := fst p in
       if r =? 24 then [] else
